@@ -15,7 +15,7 @@ import (
 
 func init() {
 	Register(&Scenario{
-		Prop: "C06", Run: scenarioC06, QuickRuns: 22500, ThoroughRuns: 562500, Level: "exploration",
+		Prop: "C06", Run: scenarioC06, QuickRuns: 22500, ThoroughRuns: 3000000, Level: "exploration",
 		Rule:       "one run = genomes taken from a seeded evolved world (disabled, recurrent, re-enabled genes, nil traits), from the shipped modular genome and from generated modular genomes are duplicated; the copy is compared field by field with the source (canonical dump except the id), searched for shared mutable objects (nodes, genes, links, traits, parameter arrays), and then a tape-chosen mutation history is applied to the copy or to the original while the other side's dump must stay bit-identical; spawning is checked as duplicate + weight perturbation. A case is one duplication with its follow-up history; non-trivial when the source carried a disabled gene, a recurrent gene, a nil trait reference or a module; distinct by genome shape hash",
 		RealParts:  []string{"Genome.duplicate with the gene / node / link / trait / MIMO-gene copy constructors", "NewPopulation (spawn)", "the mutators used to probe aliasing", "the epochs that produce the source genomes"},
 		StubParts:  []string{"fitness during the preparatory epochs", "reference innovation registry for the follow-up structural mutations"},
